@@ -25,3 +25,29 @@ CHECKS['C19'] = dict(
                  'preconditions of the headers are respected by the generator (no pop of an empty VARR, no bitmap_copy onto itself, no key outside int range)',
                  'seeded search samples histories; only HTAB histories up to enum_len over a 13-letter alphabet are enumerated completely'],
 )
+
+CHECKS['C12'] = dict(
+    harness='streamsim', variant='plain', level='fault_enumeration', default_seed=1,
+    tiers={
+        # first indices: every string over {a,b} up to length enum2 and over {a,b,c} up to length enum3, each with
+        # *complete* single-position sweeps (truncate at every k, five alterations of every byte, every appended byte)
+        'quick': dict(count=26000, enum2=9, enum3=5, pct_b=12, pct_big=6, budget_s=400),
+        'thorough': dict(count=400000, enum2=13, enum3=8, pct_b=12, pct_big=8, budget_s=2400),
+    },
+    rule=('run = one plain input (explicit bytes or a deterministic part list: repeated byte / period-p / small-alphabet random / '
+          'back-copies at chosen distances / >65536 distinct 4-grams; lengths biased to 0..9, 2046..2049, 2^18-1..2^18+1, multiples) '
+          'encoded through simulator-owned reader/writer call-backs, then (a) decoded unmodified (lossless oracle), (b) decoded after '
+          'faults attached to the run: truncate/extend/bit-flip/set/zero-range/duplicate/swap/splice of the stored stream, a format-aware crafted element (chosen literal length, reference length incl. 2^18, 2^28, 2^31, 2^32-k, offset incl. 0, 5-byte varint form) written over it, reader EOF or '
+          'short read at a chosen call, or a complete sweep of one fault family over every position of the stream; struct reduce_data '
+          'abuts a PROT_NONE guard page.  Level B runs do the same through MIR_write_with_func / MIR_read_with_func of real contexts. '
+          'non-trivial = at least one fault actually fired (stream bytes differ or a call-back fault fired) or a sweep ran; distinct = '
+          'distinct hash of (knobs, ops) among those.'),
+    probes=['spans_2_buffers', 'spans_3_buffers', 'plain_len_exact_buffer_multiple', 'damage_in_prefix', 'damage_in_trailer',
+            'damage_in_elements', 'accepted_equivalent', 'fault_reader_early_eof', 'fault_reader_short_read', 'fault_torn_write_splice', 'fault_injected_crafted_element',
+            'mirbin_spans_2_buffers', 'mirbin_damaged_rejected', 'sweep_cases', 'compressible_input'],
+    components_real=['mir-reduce.h (encoder, decoder)', 'mir-hash.h', 'mir.c MIR_write_with_func / MIR_read_with_func / MIR_scan_string / MIR_output (level B)'],
+    components_stubbed=['byte store between writer and reader (in-memory disk with faults)', 'reader/writer call-backs', 'allocator (guard pages around struct reduce_data; simalloc arena for level-B contexts)', 'error call-back (longjmp = crash point)'],
+    assumptions=['an altered stream that decodes, with success, to exactly the original plain bytes is another valid encoding of the same data (the trailer hashes the plain data) and is counted as accepted_equivalent, not flagged',
+                 'out-of-bounds accesses are detected at page granularity past the end (or before the start) of struct reduce_data; accesses that stay inside the struct are in-bounds by definition',
+                 'complete enumeration covers inputs over {a,b} up to enum2 bytes and {a,b,c} up to enum3 bytes with every single-position truncation / alteration / extension; larger inputs are sampled'],
+)
